@@ -256,8 +256,8 @@ fn cache_vs_fresh() {
 
 /// a cached expression evaluated a second time on a changed store behaves like a fresh compilation (kinds of nodes survive get_copy)
 fn cache_init_assign() {
-    let k = vnd_conc(vnd_range(0, 4, 1), 4);
-    let text = match k { 0 => "m[key] ?= 1", 1 => "n ?= b", 2 => "!(b == 3) | (b < 4)", 3 => "[b, 1][0] + {'x': b}.x", _ => "b = b + 1" };
+    let k = vnd_conc(vnd_range(0, 5, 1), 5);
+    let text = match k { 5 => "v ?= [1, 2, 3]", 0 => "m[key] ?= 1", 1 => "n ?= b", 2 => "!(b == 3) | (b < 4)", 3 => "[b, 1][0] + {'x': b}.x", _ => "b = b + 1" };
     let run = |cached: bool| -> (bool, bool, String) {
         let g = create_global_data_arc();
         { let mut gd = g.lock().unwrap();
@@ -267,7 +267,9 @@ fn cache_init_assign() {
         let mut dm = RFsmExpressionDatamodel::new(g.clone());
         let id = if cached { 77 } else { 0 };
         let r1 = dm.execute(&Data::Source(SourceCode::new(text, id)));
-        // the store changes between the two evaluations
+        // the store changes between the two evaluations (for the literal of text 5: an element of the stored array is assigned,
+        // then the variable is removed: the second evaluation must build the literal [1, 2, 3] again)
+        if k == 5 { let _ = dm.execute(&Data::Source(SourceCode::new("v[0] = 99", 0))); g.lock().unwrap().data.map.remove("v"); }
         { let mut gd = g.lock().unwrap(); gd.data.set_undefined("key".to_string(), Data::String("z".to_string())); gd.data.map.remove("n"); }
         let r2 = dm.execute(&Data::Source(SourceCode::new(text, id)));
         let s = match &r2 { Ok(v) => v.lock().unwrap().to_string(), Err(_) => "<err>".to_string() };
@@ -335,8 +337,9 @@ fn lexer_terminates(n: u32) {
 
 /// C11: malformed / extreme concrete texts evaluate to a value or an error
 fn bad_texts() {
-    let k = vnd_conc(vnd_range(0, 23, 1), 23);
+    let k = vnd_conc(vnd_range(0, 29, 1), 29);
     let t = match k {
+        24 => "[1,2][-1]", 25 => "[1,2][0 - 1]", 26 => "[1,2][2]", 27 => "[1,2][9223372036854775807]", 28 => "'abc'[-1]", 29 => "[1,2][indexOf('abc', 'x')]",
         0 => "", 1 => "(", 2 => ")", 3 => "1 +", 4 => "+ 1", 5 => "a..b", 6 => "[1,", 7 => "{'a':", 8 => "'abc", 9 => "1e", 10 => "--1", 11 => "7 % 0",
         12 => "-9223372036854775808 % -1", 13 => "abs(-9223372036854775808)", 14 => "99999999999999999999", 15 => "x[", 16 => "f(,)", 17 => "!",
         18 => "1 = 2", 19 => "'\\u00zz'", 20 => "a ? b", 21 => ". .", 22 => "[][0]", _ => "{}.x.y",
